@@ -310,3 +310,45 @@ theorem classLabels_length {raw : List (Option Int)} {ls : List Nat} (h : classL
       · simp at h
 
 end SharkVerif.Import
+
+namespace SharkVerif.Import
+namespace Svm
+variable {V : Type}
+
+theorem denseRow_length (zero : V) (size : Nat) (ws : List (Nat × V)) : (denseRow zero size ws).length = size := by
+  simp [denseRow]
+
+/-- for sorted records the stored indices of a row stay strictly increasing after the `- delta` shift -/
+theorem writes_increasing (recs : List (Rec V)) (hs : recs.all recSorted = true) (r : Rec V) (hr : r ∈ recs) :
+    strictlyIncreasing ((writes (deltaOf (hasZeroFirst recs)) r).map (·.1)) = true := by
+  have hsr : recSorted r = true := List.all_eq_true.mp hs r hr
+  have hmap : (writes (deltaOf (hasZeroFirst recs)) r).map (·.1)
+      = (r.feats.map (·.1)).map (writeIndex (deltaOf (hasZeroFirst recs))) := by
+    simp [writes, List.map_map, Function.comp_def]
+  rw [hmap]
+  apply si_map hsr
+  intro x hx y hy hxy
+  obtain ⟨q, hq, rfl⟩ := List.mem_map.mp hx
+  obtain ⟨q', hq', rfl⟩ := List.mem_map.mp hy
+  cases hz : hasZeroFirst recs with
+  | true => simp [deltaOf, writeIndex]; exact hxy
+  | false =>
+    -- all indices are at least 1
+    have hne : r.feats ≠ [] := List.ne_nil_of_mem hq
+    obtain ⟨ph, hph⟩ : ∃ p, r.feats.head? = some p := by
+      cases h : r.feats with
+      | nil => exact absurd h hne
+      | cons a t => exact ⟨a, rfl⟩
+    have h0 : ph.1 ≠ 0 := hasZeroFirst_false hz r hr ph hph
+    have h1 := (sorted_bounds hsr q hq).2 ph hph
+    have h2 := (sorted_bounds hsr q' hq').2 ph hph
+    simp [deltaOf, writeIndex]
+    split <;> split <;> omega
+
+theorem numberOfClasses_gt (ls : List Nat) : ∀ l ∈ ls, l < numberOfClasses ls := by
+  intro l hl
+  have := foldl_max_nat_ge ls 0 l hl
+  unfold numberOfClasses; omega
+
+end Svm
+end SharkVerif.Import
